@@ -263,3 +263,36 @@ Definition emit_order (p : prog) : prog := rev (fst (fold_left (load_decl p) p (
 
 Definition var_names (p : prog) : list var :=
   flat_map (fun d => match d with DVar x _ _ => [x] | _ => [] end) p.
+
+(* ---------- expression switch with fallthrough (Go spec "Expression switches"; cl/stmt.go compileSwitchStmt
+   emits the clauses in source order and a `fallthrough` after every clause body that ends with one) ----------
+   A clause = (Some v for `case v:` | None for `default:`, the marker its body prints, ends with fallthrough). *)
+Definition clause := (option Z * N * bool)%type.
+
+Fixpoint find_case (v : Z) (cs : list clause) : option (list clause) :=      (* the clauses from the selected one on *)
+  match cs with
+  | [] => None
+  | ((Some w, _, _) as c) :: t => if Z.eqb v w then Some (c :: t) else find_case v t
+  | _ :: t => find_case v t
+  end.
+Fixpoint find_default (cs : list clause) : option (list clause) :=
+  match cs with
+  | [] => None
+  | ((None, _, _) as c) :: t => Some (c :: t)
+  | _ :: t => find_default t
+  end.
+(* run the selected clause, and the following ones as long as fallthrough transfers control *)
+Fixpoint run_from (cs : list clause) : list N :=
+  match cs with
+  | [] => []
+  | (_, m, fall) :: t => m :: (if fall then run_from t else [])
+  end.
+Definition switch_exec (cs : list clause) (v : Z) : list N :=
+  match find_case v cs with
+  | Some rest => run_from rest
+  | None => match find_default cs with Some rest => run_from rest | None => [] end
+  end.
+
+(* the seeded mistake "a default clause has nothing to fall into": its fallthrough is dropped *)
+Definition drop_default_fallthrough (cs : list clause) : list clause :=
+  map (fun c => match c with (None, m, _) => (None, m, false) | c => c end) cs.
